@@ -465,6 +465,12 @@ def _delta_arrays(ctx):
     from ..idioms import check_delta_arrays
     check_delta_arrays(ctx, ["bionumpy.sequence.dna", "bionumpy.sequence.lookup", "bionumpy.sequence.translate", "bionumpy.genomic_data.genomic_sequence", "bionumpy.sequence.genes"], "C14-R6")
 
+def _strand_flag_kept(ctx):
+    from .c10 import r8_bins_size_strand
+    with ctx.only("strand flag", "stranded", "is_stranded"):
+        r8_bins_size_strand(ctx)     # a table derived from stranded intervals stays stranded (it decides reverse-complementing on '-')
+
+
 RULES = [
     ("C14-R1", r1_complement),
     ("C14-R2", r2_genetic_code),
@@ -474,4 +480,5 @@ RULES = [
     ("C14-T2", _small_edits),
     ("C14-R5", _fasta_byte_arithmetic),
     ("C14-R6", _delta_arrays),
+    ("C14-R7", _strand_flag_kept),
 ]
